@@ -60,18 +60,27 @@ TEMPLATES = {
     "g-multi-condition": [plain(1, conds=["sel", "sel2"]), corr(1, ["rule1"]), plain(2)],
     "h-two-on-one": [plain(1), corr(1, ["rule1"]), corr(2, ["rule1"]), corr(3, ["corr1", "corr2"], ctype="temporal"), plain(2)],
 }
+XCORR = {"title": "c1", "id": rid(101), "name": "corr1", "correlation": {"type": "temporal", "timespan": "5m", "group-by": ["user"], "condition": "rule1 and (rule2 or not rule3)"}}
+TEMPLATES["j-extended-no-rules-list"] = [plain(1), plain(2), plain(3), XCORR, corr(2, ["corr1"])]
 TEMPLATES["i-seven"] = TEMPLATES["d-depth3"] + [corr(4, ["rule2", "corr1"], generate=True, ctype="temporal")]
-QUICK = ["d-depth3", "a-by-name", "b-by-id", "c-corr-of-corr", "e-generate-mix", "e2-generate-all", "f-missing", "g-multi-condition", "h-two-on-one"]
+QUICK = ["d-depth3", "a-by-name", "b-by-id", "c-corr-of-corr", "e-generate-mix", "e2-generate-all", "f-missing", "g-multi-condition", "h-two-on-one", "j-extended-no-rules-list"]
 THOROUGH = QUICK + ["i-seven"]
 
 
 def bounds(tier):
     names = QUICK if tier == "quick" else THOROUGH
-    return {"templates": {n: len(TEMPLATES[n]) for n in names}, "permutations": "all", "load_paths": ["yaml", "dicts", "merge@cut(resolved|unresolved)", "load_ruleset"]}
+    return {"templates": {n: len(TEMPLATES[n]) for n in names}, "permutations": "all", "load_paths": ["yaml", "dicts", "merge@cut(resolved|unresolved)", "load_ruleset", "yaml / merge@cut / load_ruleset with collect_errors"]}
 
 
 def refs_of(doc):
-    return doc.get("correlation", {}).get("rules", [])
+    c = doc.get("correlation", {})
+    if "rules" in c:
+        return c["rules"]
+    if isinstance(c.get("condition"), str):  # rules named only by the extended condition
+        import re
+
+        return [t for t in re.findall(r"[A-Za-z0-9_-]+", c["condition"]) if t not in ("and", "or", "not")]
+    return []
 
 
 def key_of(doc):
@@ -115,6 +124,27 @@ def load(docs, path, tmpdir):
                 except Exception:
                     pass
         return SigmaCollection.merge([a, b])
+    if kind in ("yaml-c", "files-c", "merge-c"):
+        # error collecting variants: the collected errors stand for the exception strict loading raises
+        if kind == "yaml-c":
+            coll = SigmaCollection.from_yaml(yaml.safe_dump_all(docs, sort_keys=False), collect_errors=True)
+        elif kind == "merge-c":
+            cut = path[1]
+            text = lambda ds: yaml.safe_dump_all(ds, sort_keys=False)
+            a = SigmaCollection.from_yaml(text(docs[:cut]), collect_errors=True, resolve_references=False)
+            b = SigmaCollection.from_yaml(text(docs[cut:]), collect_errors=True, resolve_references=False)
+            coll = SigmaCollection.merge([a, b])
+        else:
+            paths = []
+            for i, d in enumerate(docs):
+                p = os.path.join(tmpdir, f"{path[1]}_{i}.yml")
+                with open(p, "w") as f:
+                    yaml.safe_dump(d, f, sort_keys=False)
+                paths.append(p)
+            coll = SigmaCollection.load_ruleset(paths, collect_errors=True)
+        if coll.errors:
+            raise coll.errors[0]
+        return coll
     if kind == "files":
         paths = []
         for i, d in enumerate(docs):
@@ -188,10 +218,11 @@ def standalone(doc):
 
 
 def paths_for(n, tag):
-    ps = [("yaml",), ("dicts",), ("files", tag)]
+    ps = [("yaml",), ("dicts",), ("files", tag), ("yaml-c",), ("files-c", tag)]
     for cut in range(1, n):
         ps.append(("merge", cut, False))
         ps.append(("merge", cut, True))
+        ps.append(("merge-c", cut))
     return ps
 
 
